@@ -42,7 +42,8 @@ is a name that is often used to describe this type of transformation.
 
 from psyclone.core import AccessType, VariablesAccessInfo
 from psyclone.psyGen import Transformation
-from psyclone.psyir.nodes import Loop, Assignment, Schedule
+from psyclone.psyir.nodes import (Loop, Assignment, Schedule, CodeBlock,
+                                  Return)
 from psyclone.psyir.transformations.transformation_error \
     import TransformationError
 
@@ -129,6 +130,8 @@ class HoistTrans(Transformation):
             loop.
         :raises TransformationError: if the assignment is not a direct \
             child of the the loop.
+        :raises TransformationError: if an earlier statement of the loop \
+            body may transfer control out of the iteration.
 
         '''
         # The node should be an assignment
@@ -154,6 +157,18 @@ class HoistTrans(Transformation):
                     f"should be directly within a loop but found "
                     f"'{current.debug_string()}'.")
             current = current.parent
+
+        # The assignment must be reached on every iteration: an earlier
+        # statement of the loop body that can transfer control (a RETURN, or
+        # a CodeBlock, which may hold an EXIT, CYCLE or GOTO) means that it
+        # is not safe to execute the assignment unconditionally.
+        for sibling in node.parent.children[:node.position]:
+            if sibling.walk((Return, CodeBlock)):
+                raise TransformationError(
+                    f"The supplied assignment node '{node.debug_string()}' "
+                    f"cannot be hoisted because it is preceded in the loop "
+                    f"body by a statement that may transfer control out of "
+                    f"the iteration: '{sibling.debug_string()}'.")
 
         # Check dependency issues that might prevent hoisting:
         self._validate_dependencies(node, parent_loop)
